@@ -134,6 +134,40 @@ def run(tier, seed):
                         src_lines[k] = "scope0.loc:"
             src = "\n".join(src_lines)
         cases.append({"arch": "6502", "stmts": ref_with_isdef(stmts), "src": src, "note": "history"})
+    # chains of names defined from one another (each level lazily or by value, defined top-down or
+    # bottom-up), probed before and after the base or a middle level is redefined: a use must see
+    # the values current at the use (or the final ones when it is deferred), never a remembered one
+    n_chain = 0
+    for depth in (1, 2, 3):
+        for kinds in itertools.product((True, False), repeat=depth):
+            for topdown in (True, False):
+                for redef_level in range(depth + 1):
+                    for redef_lazy in (True, False):
+                        for early in (True, False):
+                            names = [f"ch{i}" for i in range(depth + 1)]     # ch0 depends on ch1 … ; the last is the base
+                            stmts, lines = [], []
+                            if early:
+                                e = ("bin", "band", ("sym", names[0], names[0]), ("num", 0xFFFF))
+                                stmts.append(("dw", e))
+                                lines.append(f"@dw {names[0]} & $ffff")
+                            defs = []
+                            for i in range(depth):
+                                e = ("bin", "add", ("sym", names[i + 1], names[i + 1]), ("num", i + 1))
+                                defs.append((("define", kinds[i], names[i], e), f"@{'defl' if kinds[i] else 'defn'} {names[i]}, {names[i + 1]} + {i + 1}"))
+                            defs.append((("define", False, names[depth], ("num", 10)), f"@defn {names[depth]}, 10"))
+                            for st, ln in (defs if topdown else list(reversed(defs))):
+                                stmts.append(st)
+                                lines.append(ln)
+                            use = ("bin", "band", ("sym", names[0], names[0]), ("num", 0xFF))
+                            stmts.append(("db", use))
+                            lines.append(f"@db {names[0]} & $ff")
+                            tgt = names[redef_level]
+                            stmts.append(("redefine", redef_lazy, tgt, ("num", 40)))
+                            lines.append(f"@{'redefl' if redef_lazy else 'redefn'} {tgt}, 40")
+                            stmts.append(("db", use))
+                            lines.append(f"@db {names[0]} & $ff")
+                            cases.append({"arch": "6502", "stmts": stmts, "src": "\n".join(lines) + "\n", "note": "chain"})
+                            n_chain += 1
     res = core.run_cases(chk, cases, "h", key_fn=lambda c, bad: "history:" + bad[:40])
     for r in res:
         chk.distinct.add(r["case"]["src"])
@@ -143,12 +177,12 @@ def run(tier, seed):
     chk.oblige("correspondence: implementation = both Models on every history", not chk.disagreements, str(chk.disagreements[:2])[:800])
     chk.coverage.update({"exhaustive": exhaustive_all,
                          "exhaustive_note": f"histories over {len(OPS)} operations x {len(NAMES)} names (global, local, direct): all of length <= 3 ({n_exh}) in thorough, all of length <= 2 plus a seeded quarter of length 3 in quick; seeded longer histories up to 40 steps",
-                         "operation_histogram": ophist, "accepted": ok, "rejected_already_defined": already})
+                         "operation_histogram": ophist, "chain_programs": n_chain, "accepted": ok, "rejected_already_defined": already})
     chk.assumptions = ["`@undef` of a name that an earlier deferred use still references makes the link fail (Undefined symbol): the reference models the same rule; the property is about the bytes of builds that succeed and about accept/reject of definitions"]
     return chk.finish(
         checker_cmd="cd /verif/lean && lake build Az65.Thm.C08 && #print axioms audit",
         trusted_base=C.TRUSTED + ["checks/proggen.py reference (snapshot of computable names at the use, final-table value otherwise)"],
-        rule="case = history of {label, @defl, @defn, @redefl, @redefn (incl. X+1 self-updates), definition from two other names (chains, diamonds), @undef, @isdef probe, use, use mentioning the name twice, early use} over three names, a @db/@dw probe per use; distinct = distinct histories")
+        rule="case = history of {label, @defl, @defn, @redefl, @redefn (incl. X+1 self-updates), definition from two other names (chains, diamonds), @undef, @isdef probe, use, use mentioning the name twice, early use} over three names, a @db/@dw probe per use; plus dependency chains of depth 1..3 (each level @defl or @defn, defined top-down or bottom-up) probed before and after any level is redefined; distinct = distinct histories")
 
 
 replay = core.replay
